@@ -37,11 +37,13 @@ theorem noView_of {w : World} {a : Args} (h : viewTarget w a = false) : NoViewTa
     * an in-place operation (`upd`, `updr`, `set`, `bits`, `geom`, and `sop` / `mask` / `bop` / `inv` with
       `inplace=1`) whose target is a record-field VIEW: the store writes the column back into the parent —
       not covered by the simulation proved here;
-    * the nine operations NOT covered by the simulation proved here: `pack`, `mop`, `deg`, `moc`,
-      `dor`, `cat`, `genhp`, `interp`, `hpxwrite` (no dependence on the block order was observed
+    * the five operations NOT covered by the simulation proved here: `deg`, `dor`, `cat`, `genhp`
+      (they go through `degrade` / `cat`, whose error behaviour has no flat specification yet) and
+      `hpxwrite` (the HEALPix-format file lists the pixels in STORAGE order: the two files differ
+      as lists, though they hold the same pixel ↦ value association) (no dependence on the block order was observed
       on them either: `uncoveredEvidence` below — evaluated, not proved).
-    Covered (39 operations + the whole `p.*` family): cfg upd updr set bits geom sop mask astype bop
-    inv chk copy info upg mocread single scov meta getmeta write read covread fromhp hpximplicit
+    Covered (42 operations + the whole `p.*` family): cfg upd updr set bits geom sop mask astype pack
+    bop inv mop moc interp chk copy info upg mocread single scov meta getmeta write read covread fromhp hpximplicit
     hpxread rand vals get valid nvalid covmap vpsc fracdet covmask drop reset bad, unknown
     operations. -/
 def diff (w : World) (op : String) (a : Args) : Bool :=
@@ -50,7 +52,7 @@ def diff (w : World) (op : String) (a : Args) : Bool :=
   | "upd" | "updr" | "set" | "bits" | "geom" => viewTarget w a
   | "sop" | "mask" | "bop" | "inv" => a.flag "inplace" && viewTarget w a
   -- not covered
-  | "pack" | "mop" | "deg" | "moc" | "dor" | "cat" | "genhp" | "interp" | "hpxwrite" => true
+  | "deg" | "dor" | "cat" | "genhp" | "hpxwrite" => true
   | _ => false
 
 /-- … on a protocol line -/
@@ -86,7 +88,9 @@ theorem same_stepArgs {w₁ w₂ : World} (h : w₁.SameW w₂) (g₁ : w₁.Goo
         | exact same_opMeta h g₁ g₂ a | exact same_opBad h g₁ g₂ a | exact same_opCopy h g₁ g₂ a
         | exact same_opNvalid h g₁ g₂ a | exact same_opWrite h g₁ g₂ a
         | exact same_opAstype h g₁ g₂ a | exact same_opScov h g₁ g₂ a | exact same_opUpg h g₁ g₂ a
-        | exact same_opFracdet h g₁ g₂ a | exact same_opSingle h g₁ g₂ a)
+        | exact same_opFracdet h g₁ g₂ a | exact same_opSingle h g₁ g₂ a
+        | exact same_opMop h g₁ g₂ a | exact same_opPack h g₁ g₂ a | exact same_opInterp h g₁ g₂ a
+        | exact same_opMoc h g₁ g₂ a)
     | exact same_opUpd h g₁ g₂ a (noView_of hex)
     | exact same_opUpdr h g₁ g₂ a (noView_of hex)
     | exact same_opSet h g₁ g₂ a (noView_of hex)
@@ -272,7 +276,12 @@ def continuation : List String :=
    "valid mk", "astype m dtype=f8 r=mf", "vals mf", "scov m k=10 r=sc", "valid sc",
    "upg m ord=2 r=up", "nvalid up", "fracdet m ord=0 r=fd", "vals fd",
    "write m f=F", "covread f=F", "read f=F r=z", "read f=F r=zp pixels=10,1", "vals zp",
-   "copy m r=c", "upd c pix=99 val=1", "set m slice=0:48:7 val=8", "vals m", "valid m", "nvalid m"]
+   "copy m r=c", "upd c pix=99 val=1", "set m slice=0:48:7 val=8", "vals m", "valid m", "nvalid m",
+   "cfg k kind=plain dtype=i4 covord=0 spord=1", "upd k pix=5,30 vals=2,3",
+   "mop maps=m,k name=sum_union r=s1", "vals s1", "mop maps=m,k name=max_intersection r=s2",
+   "valid s2", "mop maps=m name=sum_union r=s3", "geom m ranges=0:4 value=3 op=replace mode=ior",
+   "vals m", "moc m f=M", "mocread f=M covord=0 r=mm", "valid mm",
+   "interp m nb=5:6:40:41 w=1:1:1:1", "astype m dtype=b1 r=bb", "pack bb r=pb", "valid pb"]
 
 -- the two routes reach DIFFERENT arrays …
 #guard (step (runLines route₁) "dump m").2 != (step (runLines route₂) "dump m").2
@@ -293,7 +302,8 @@ def continuation : List String :=
         == ["err ValueError", "err IndexError", "err NotImplementedError"]
 -- the exception set flags the array dumps and the operations not covered
 #guard diffLine (runLines route₁) "dump m" && diffLine (runLines route₁) "state m cov=_ sp=_" &&
-       diffLine (runLines route₁) "deg m ord=0 r=d" && !diffLine (runLines route₁) "upd m pix=1 val=1"
+       diffLine (runLines route₁) "deg m ord=0 r=d" && !diffLine (runLines route₁) "upd m pix=1 val=1" &&
+       !diffLine (runLines route₁) "mop maps=m,m name=sum_union r=x"
 
 /-- the operations the simulation does not cover, run after both routes -/
 def uncoveredEvidence : List String :=
